@@ -11,9 +11,18 @@ class RandQ:
         self.pending = []
         self.ntag = self.nout = self.nvar = self.nfold = 0
         self.vars = {}
+        self.varshape = {}
 
-    def newvar(self, val):
-        self.nvar += 1; n = f"v{self.nvar}"; self.vars[n] = val; return n
+    def newvar(self, val, shape=None):
+        """a fresh variable, or (sometimes) an existing one whose uses have the same type up to nullability: the query then implies the
+        greatest common subtype of the uses for it (C10-C12); values never contain nulls, so the first value fits every narrowing"""
+        if shape is not None:
+            shape = shape.replace("!", "")
+            same = [n for n, s in self.varshape.items() if s == shape]
+            if same and self.rng.random() < 0.25: return self.rng.choice(same)
+        self.nvar += 1; n = f"v{self.nvar}"; self.vars[n] = val
+        if shape is not None: self.varshape[n] = shape
+        return n
 
     def val_for(self, ty):
         r = self.rng; t = T(ty)
@@ -51,7 +60,8 @@ class RandQ:
         elif op in ("regex", "not_regex"):
             val = S(r.choice(["a", "^a", "b$", "^ab$", "", "^$"] + (["(", "[", "a{2"] if self.stress else [])))
         else: val = self.val_for(aty)
-        return FVar(op, self.newvar(val))
+        shape = "[" + base + "]" if op in ("one_of", "not_one_of") else ("String" if op in STRING_OPS else aty)
+        return FVar(op, self.newvar(val, shape))
 
     def scope(self, ty, depth, path, prefix_used):
         r = self.rng; sc = self.sc
@@ -107,9 +117,9 @@ class RandQ:
                         if op not in ("one_of", "not_one_of") and cands and r.random() < 0.3:
                             t = r.choice(cands); t[3][0] = True; arg = {"k": "tag", "n": t[0]}
                         elif op in ("one_of", "not_one_of"):
-                            arg = {"k": "var", "n": self.newvar(L([I(r.choice([-1, 0, 1, 2, 3])) for _ in range(r.choice([0, 1, 2]))]))}
+                            arg = {"k": "var", "n": self.newvar(L([I(r.choice([-1, 0, 1, 2, 3])) for _ in range(r.choice([0, 1, 2]))]), "[Int]")}
                         else:
-                            arg = {"k": "var", "n": self.newvar(I(r.choice([-1, 0, 1, 1, 2, 2, 3])))}
+                            arg = {"k": "var", "n": self.newvar(I(r.choice([-1, 0, 1, 1, 2, 2, 3])), "Int")}
                         c["filters"].append({"op": op, "arg": arg})
                     if r.random() < 0.5:
                         self.nout += 1; c["outputs"].append({"name": f"o{self.nout}" if r.random() < 0.8 else ""})
